@@ -7,6 +7,8 @@ package PKGNAME
 
 import (
 	"math"
+	"syscall"
+	"unsafe"
 	"encoding/json"
 	"errors"
 	"fmt"
@@ -300,3 +302,72 @@ func zzDiff(a, b float32) {}
 
 // zzIgnoreZeroSign: from now on the engine identifies -0.0 and +0.0 in float additions (native: no-op).
 func zzIgnoreZeroSign() {}
+
+// zzF64s: n arbitrary float64 values (bit patterns name_i), NaN excluded.
+func zzF64s(name string, n int) []float64 {
+	f := make([]float64, n)
+	for i := range f {
+		f[i] = math.Float64frombits(zzModel[fmt.Sprintf("%s_%d", name, i)])
+		if f[i] != f[i] {
+			f[i] = 1
+		}
+	}
+	return f
+}
+
+// zzDCTII32(in, out, eps, epsRound): every out[k] is within (eps+epsRound)*||in||_1 of the unscaled DCT-II of in,
+// sum_j in[j]*cos(pi*(2j+1)*k/(2n)). Engine: in holds the kernel's input variables and out its output terms; read over
+// the reals (exact rational coefficients) the kernel is within eps*||x||_1 of the DCT-II for every real vector (one LRA
+// query per output), and the running bound of the rounding error of the float evaluation is at most epsRound*||x||_1.
+// Native: evaluated in float64 on the given vectors.
+func zzDCTII32(in, out []float32, eps, epsRound float64) bool {
+	a, b := make([]float64, len(in)), make([]float64, len(out))
+	for i := range in {
+		a[i], b[i] = float64(in[i]), float64(out[i])
+	}
+	return zzDCTII64(a, b, eps, epsRound)
+}
+
+func zzDCTII64(in, out []float64, eps, epsRound float64) bool {
+	n := len(in)
+	var l1 float64
+	for _, x := range in {
+		l1 += math.Abs(x)
+	}
+	for k := 0; k < n; k++ {
+		var s float64
+		for j := 0; j < n; j++ {
+			s += in[j] * math.Cos(math.Pi*float64(2*j+1)*float64(k)/float64(2*n))
+		}
+		if math.Abs(out[k]-s) > (eps+epsRound)*l1 {
+			return false
+		}
+	}
+	return true
+}
+
+// zzGuardAllocF32: a zeroed []float32 of n elements. Native: the slice ends exactly at the end of a mapped page and the
+// next page is inaccessible (and, when the slice fills whole pages, so is the page before it), so that a load or store
+// of the assembly beyond the slice faults instead of silently touching neighbouring memory.
+func zzGuardAllocF32(n int) []float32 {
+	const pg = 4096
+	sz := 4 * n
+	pages := (sz + pg - 1) / pg
+	mem, err := syscall.Mmap(-1, 0, (pages+2)*pg, syscall.PROT_READ|syscall.PROT_WRITE, syscall.MAP_ANON|syscall.MAP_PRIVATE)
+	if err != nil {
+		return make([]float32, n)
+	}
+	_ = syscall.Mprotect(mem[(pages+1)*pg:], syscall.PROT_NONE)
+	if sz%pg == 0 {
+		_ = syscall.Mprotect(mem[:pg], syscall.PROT_NONE)
+	}
+	start := (pages+1)*pg - sz
+	return unsafe.Slice((*float32)(unsafe.Pointer(&mem[start])), n)
+}
+
+// zzGuardCopy: a copy of g in guarded memory (see zzGuardAllocF32)
+func zzGuardCopy(g []float32) []float32 {
+	a := zzGuardAllocF32(len(g))
+	copy(a, g)
+	return a
+}
